@@ -80,7 +80,7 @@ def run(case, rec):
     if flav == "obj" and case.get("falsy"):
         # every second label is represented by a falsy (but perfectly legal) object
         orig = fl._make
-        fl._make = lambda label: FalsyPerson("g-" + label, label) if (len(label) + ord(label[0])) % 2 else orig(label)
+        fl._make = lambda label: FalsyPerson("g-" + label, label) if (len(label) + (ord(label[0]) if label else 0)) % 2 else orig(label)
     tree, nodes = build(case["spec"], flavour=fl)
     if case.get("emptied"):
         # a tree that was filled and emptied again
@@ -197,7 +197,9 @@ def run(case, rec):
 def hyp_cases(draw, tier):
     flav = draw(st.sampled_from(["str", "str", "obj"]))
     opts = gen.node_opts(explicit_ids=True) if flav == "str" else None
-    spec = draw(gen.forest_specs(max_nodes=16, max_depth=5, max_width=4, opts=opts))
+    from vlib.build import ALPHA
+
+    spec = draw(gen.forest_specs(max_nodes=16, max_depth=5, max_width=4, opts=opts, alphabet=ALPHA + ['q"t', "b\\s", "n\nl", " sp ", ""]))
     gen.fix_sibling_ids(spec)
     case = {"spec": spec, "flavour": flav, "json": draw(st.booleans())}
     if flav == "obj":
